@@ -226,6 +226,17 @@ pub fn circuit_progs() -> Vec<(&'static str, Prog)> {
             Ok(())
         }),
     ));
+    // no public-input row at all: the only valid vector is the empty one
+    v.push((
+        "pi0",
+        Prog::new(|c| {
+            let a = c.append_witness(fe(3));
+            let b = c.append_witness(fe(5));
+            let m = c.gate_mul(Constraint::new().mult(1).a(a).b(b));
+            c.assert_equal_constant(m, fe(15), None);
+            Ok(())
+        }),
+    ));
     // one public input
     v.push((
         "pi1",
@@ -295,8 +306,8 @@ pub fn circuit_progs() -> Vec<(&'static str, Prog)> {
 
 pub fn circuit_names(tier: Tier) -> Vec<&'static str> {
     match tier {
-        Tier::Quick => vec!["pi2-adjacent-zero", "pi4-range-point"],
-        Tier::Thorough => vec!["pi2-adjacent-zero", "pi4-range-point", "pi1", "pi3-equal", "pi1-zero", "pi4-logic"],
+        Tier::Quick => vec!["pi2-adjacent-zero", "pi4-range-point", "pi0"],
+        Tier::Thorough => vec!["pi2-adjacent-zero", "pi4-range-point", "pi0", "pi1", "pi3-equal", "pi1-zero", "pi4-logic"],
     }
 }
 
